@@ -6,6 +6,8 @@ use serde_json::Value;
 pub mod c01;
 pub mod c02;
 pub mod c03;
+pub mod c04;
+pub mod c05;
 pub mod c06;
 pub mod c10;
 pub mod tunnelreq;
@@ -66,6 +68,20 @@ pub static PROPS: &[PropDef] = &[
         level: "exploration",
         run: c14::run,
         replay: c14::replay,
+        workers: w16,
+    },
+    PropDef {
+        id: "C04",
+        level: "exploration",
+        run: c04::run,
+        replay: c04::replay,
+        workers: w16,
+    },
+    PropDef {
+        id: "C05",
+        level: "exploration",
+        run: c05::run,
+        replay: c05::replay,
         workers: w16,
     },
     PropDef {
